@@ -82,16 +82,28 @@ def exhaustive(ctx, lay_spec, budget, P):
             ctx.spec_drift("%s: graded meshes differ from the model's (spec-only %d)" % (tag, len(S_spec - S_code)))
     # measurements of the graded real meshes judged by TLC
     events, index = [], []
+    # every state within the budget is graded by the real call and the result judged (also when the result coincides with a
+    # state reached otherwise, e.g. when grading returns the mesh unchanged)
+    consts = {"p": P, "ct": [-4] * (Nt * Nx), "cs": [-4] * (Nt * Nx)}
     for sid, (path, order) in g["states"].items():
         if path and path[-1][0] == "grade":
-            pre = ml.replay(lay, path[:-1])
-            events.append(rm.reset_event(pre, lay, False))
-            index.append(None)
-            ev = dict(g["events"][sid])
-            ev.update({"k": "grade", "p": P, "ct": [-4] * (Nt * Nx), "cs": [-4] * (Nt * Nx)})
-            ev.pop("nb", None), ev.pop("bd", None)
-            events.append(ev)
-            index.append(path)
+            continue
+        if len(order) > Nt * Nx + budget:
+            continue
+        pre = ml.replay(lay, path)
+        events.append(rm.reset_event(pre, lay, False))
+        index.append(None)
+        try:
+            ev = graded_event(pre, lay, lay.sigma, 600)
+        except Exception as exn:
+            ev = {"k": "grade", "exc": repr(exn)[:100], "post": []}
+        if ev is None:
+            events.pop(), index.pop()
+            continue
+        ev.update(consts)
+        ev.pop("nb", None), ev.pop("bd", None)
+        events.append(ev)
+        index.append(tuple(path) + (("grade", lay.sigma),))
     if events:
         bad, jres = rm.judge(lay, events, timeout=3000)
         st["judged_graded_meshes"] = len(events) // 2
